@@ -51,7 +51,7 @@ def replay(ctx, binary, cases, prefixes):
             for sig in sigs:
                 if any(sig.startswith(p) for p in prefixes):
                     hit = True
-                    ctx.fail(sig, rr["detail"], {"eventTypes": c["eventTypes"], "actions": [s["act"] for s in c["steps"][1:rr.get("bad_step") or len(c["steps"])]]})
+                    ctx.fail(sig, rr["detail"], vlib.replay_payload("ki", ["replay", "-in", "{in}", "-out", "{out}"], c, human={"eventTypes": c["eventTypes"], "actions": [s["act"] for s in c["steps"][1:rr.get("bad_step") or len(c["steps"])]]}))
             if not hit:
                 stats["diverged"] += 1
                 ctx.notes.append("DIVERGENCE %s at step %s: %s" % (rr["sig"], rr.get("bad_step"), rr["detail"][:300]))
@@ -93,7 +93,7 @@ def ns_monitor(ctx):
         for sig in sigs:
             if sig.startswith("C01/"):
                 hit = True
-                ctx.fail(sig, o["detail"], {"spec": "NsMonitor", "actions": [s["act"] for s in c["steps"][1:]]})
+                ctx.fail(sig, o["detail"], vlib.replay_payload("nsmon", ["-in", "{in}", "-out", "{out}"], c, human={"spec": "NsMonitor", "actions": [s["act"] for s in c["steps"][1:]]}))
         if not hit:
             stats["diverged"] += 1
             ctx.notes.append("DIVERGENCE %s (NsMonitor step %s): %s" % (o["sig"], o.get("bad_step"), o["detail"][:300]))
